@@ -22,7 +22,8 @@ func isConfigFile(name string) bool { return name == "gitconfig.go" }
 
 var boundsExceptions = map[string]string{
 	"main.main:slice": "os.Args[1:]: len(os.Args) >= 1 by process convention",
-	"(*counts.Humaner).FormatNumber:index": "h.prefixes[0]: every Humaner value in the module is one of the package-level tables, which C12.tables requires to be non-empty",
+	"(*sizes.table).formatRow:repeat-count:indent": "strings.Repeat(\" \", 2*(t.indent-1)) under t.indent != 0: indent is -1 only for the outermost table, which formats no row of its own (addSection emits its sections at indent 0 and below); every row is formatted at indent >= 0",
+	"(*counts.Humaner).FormatNumber:index":         "h.prefixes[0]: every Humaner value in the module is one of the package-level tables, which C12.tables requires to be non-empty",
 }
 
 func ruleC07RenderTotal(c *Ctx) {
